@@ -43,7 +43,7 @@ ROUTE_FORMS = gen.FORMS + ["csr_zeros", "csc_zeros", "coo_zeros",
 
 
 @st.composite
-def routes(draw, untyped, equal_totals):
+def routes(draw, untyped, equal_totals, f32_exact=False):
     # rename every ID of an axis to its successor's name, then back: the
     # same content again, reached through two re-keyings of the lookup
     extra = [st.builds(lambda a, ip: {"op": "rotate_ids2", "axis": a,
@@ -56,7 +56,8 @@ def routes(draw, untyped, equal_totals):
                        "n": equal_totals[1], "seed": s},
             st.integers(0, 2 ** 16)))
     el = st.one_of(ops.read_ops(), *extra) if extra else ops.read_ops()
-    return {"form": draw(st.sampled_from(ROUTE_FORMS)),
+    forms = ROUTE_FORMS + (gen.FORMS_F32 if f32_exact else [])
+    return {"form": draw(st.sampled_from(forms)),
             "md_none": draw(st.sampled_from(["none", "nones", "empties"])),
             "history": draw(st.lists(el, max_size=4)),
             # the content is reached by doubling a table built with halved
@@ -99,7 +100,11 @@ def cases(draw, tier):
         spec["samp_gmd"] = {"graph": ["text", "g"]} \
             if draw(st.booleans()) else None
     case = {"kind": kind, "spec": spec,
-            "routes": [draw(routes(untyped, et)) for _ in range(nroutes)],
+            # single-precision sparse input is one more route when every
+            # value is exactly representable in it
+            "routes": [draw(routes(untyped, et, kind in ("int", "dyadic",
+                                                         "count")))
+                       for _ in range(nroutes)],
             "access": draw(st.lists(ACCESS, max_size=4)),
             "diff": None}
     if draw(st.integers(0, 3)) == 0:
@@ -458,6 +463,9 @@ def check(case, rec):
         route_b["history"] = [o for o in route_b["history"]
                               if o["op"] != "subsample_full"]
         route_b["halved"] = None   # exact only for the original content
+        if route_b["form"] in gen.FORMS_F32:
+            # single precision cannot hold e.g. a one-ulp difference
+            route_b["form"] = "csr"
         if s2.get("type") is not None:
             # transpose() does not carry the table type, so the
             # "transpose twice" route is content preserving only when untyped
